@@ -57,6 +57,8 @@ def build_array(uni, desc, cls=None):
     vals = np.array([float(Fraction(v)) for v in desc["values"]], dtype=float).reshape(shape)
     if desc.get("dtype") == "int" and all(Fraction(v).denominator == 1 for v in desc["values"]):
         vals = vals.astype(np.int64)      # whole numbers held in an integer array: how the values are stored must not matter
+    elif desc.get("dtype") in ("uint8", "int8", "bool", "int32", "float32"):
+        vals = vals.astype(desc["dtype"])  # (the values are chosen so that they fit)
     lay = desc.get("layout", "C")
     if lay == "F" and vals.ndim >= 2:
         vals = np.asfortranarray(vals)
